@@ -661,6 +661,8 @@ func replay() {
 		s, p = buildQRText(rc.V, rc.Level, rc.Mask, twinText(rc.V, rc.Level), true)
 	} else if rc.Kind == "qr" {
 		s, p = buildQR(rc.V, rc.Level, rc.Mask)
+	} else if rc.DMVal > 0 {
+		s, p = buildDMText(rc.DM, dmValueText(rc.DM, rc.DMVal), rc.DMVal)
 	} else {
 		s, p = buildDM(rc.DM)
 	}
